@@ -261,6 +261,10 @@ func main() {
 	switch os.Args[1] {
 	case "repo":
 		cmdRepo(os.Args[2:])
+	case "crash":
+		cmdCrash(os.Args[2:])
+	case "crashchild":
+		crashChild(os.Args[2:])
 	case "lin":
 		cmdLin(os.Args[2:])
 	case "sched":
